@@ -174,6 +174,9 @@ func checkC13(c *Ctx) {
 
 	// R13.3 ---------------------------------------------------------------
 	c13Wrappers(c)
+	c.Rule("R13.6", "a combined syncer keeps every sink it is given, in order (a sink dropped at construction never reports a short write or an error), and zap.CombineWriteSyncers puts ONE lock around the whole group", 4)
+	cKeepsAll(c, "R13.6", c.Func(CorePath, "NewMultiWriteSyncer"), "zapcore.NewMultiWriteSyncer", "ret(cores[0:0])")
+	c4LocksCombined(c, "R13.6")
 
 	// R13.4 ---------------------------------------------------------------
 	for _, m := range []string{"Write", "Sync"} {
